@@ -258,6 +258,61 @@ fn main() {
         }
         t
     });
+    // E6: exhaustive mutation neighbourhoods of valid numerals: every single and every double insertion, and
+    // every single substitution, of a symbol from {+ - . _ e E é ٣ NUL space x 1} at every position
+    let bases: Vec<&str> = vec!["0", "7", "-1", "+12", "1.5", "-0.25", "1e5", "1.5e-3", "12_345.678_9", ".5", "5.", "1E+10", "123456789012345678901234567890", "0.000", "1e9223372036854775807", "-1.0e-9223372036854775807"];
+    let syms: Vec<&str> = vec!["+", "-", ".", "_", "e", "E", "é", "٣", "\0", " ", "x", "1"];
+    run.bound("E6_bases", json!(bases));
+    run.bound("E6_symbols", "+ - . _ e E é ٣ NUL space x 1");
+    run.par("E6 mutation neighbourhoods (1 and 2 insertions, 1 substitution)", bases.len(), |bi| {
+        let mut t = Tally::default();
+        let base: Vec<char> = bases[bi].chars().collect();
+        let mut visit = |text: &str| {
+            t.states += 1;
+            if expected(text.as_bytes(), 10).is_some() {
+                t.nontrivial += 1;
+            }
+            for e in ["from_str", "parse_bytes(10)"] {
+                t.transitions += 1;
+                if let Some(v) = check(e, text.as_bytes(), 10) {
+                    run.report(v);
+                }
+            }
+        };
+        let build = |ins: &[(usize, &str)], sub: Option<(usize, &str)>| -> String {
+            let mut out = String::new();
+            for i in 0..=base.len() {
+                for (pos, sym) in ins {
+                    if *pos == i {
+                        out.push_str(sym);
+                    }
+                }
+                if i < base.len() {
+                    match sub {
+                        Some((p, sym)) if p == i => out.push_str(sym),
+                        _ => out.push(base[i]),
+                    }
+                }
+            }
+            out
+        };
+        for i in 0..=base.len() {
+            for a in syms.iter() {
+                visit(&build(&[(i, a)], None));
+                if i < base.len() {
+                    visit(&build(&[], Some((i, a))));
+                }
+                for j in i..=base.len() {
+                    for b in syms.iter() {
+                        visit(&build(&[(i, a), (j, b)], None));
+                    }
+                }
+            }
+        }
+        run.sample(|| case_json("from_str", build(&[(1, "_"), (2, "é")], None).as_bytes(), 10));
+        t
+    });
+
     let radices = [0u32, 1, 2, 8, 9, 11, 16, 36, 37, u32::MAX];
     run.bound("E5_radices", json!(radices));
     run.par("E5 radix other than 10", gp.len(), |i| {
